@@ -156,6 +156,7 @@ def c09(ctx):
         ctx.add(out, lab, M.rule_C1, ctx, prog, lab)
         ctx.add(out, lab, M.rule_C2_callers, ctx, prog, lab)
         ctx.add(out, lab, M.rule_C3, ctx, prog, lab)
+        ctx.add(out, lab, M.rule_C3c, ctx, prog, lab)
         ctx.add(out, lab, M.rule_C4, ctx, prog, lab)
         ctx.add(out, lab, M.rule_S1, ctx, prog, lab)
         ctx.add(out, lab, CR.rule_A1, ctx, prog, lab)
@@ -276,6 +277,7 @@ BIT_FUNCS = {'m4ri_spread_bits', 'm4ri_shrink_bits', 'm4ri_swap_bits'}
                    'work); F2 (allocated result shape = demanded shape); C6/C6b (clear flags by role); C2 (tables written only by builders).'),
       not_decided='that the Bodrato sequence, the k-splitting and the parity kernel compute A*B (value level); the Strassen empty-quadrant abort needs arithmetic on mmm and is not found by these rules')
 def c01(ctx):
+    from . import intervals as IV
     from . import families as B, const_rules as CR, contracts as CT, purity as P, masks as M
     out = []
     for cfg in _configs(ctx, extra=[dict(frontend.host_config(), sse2=0)]):
@@ -292,6 +294,9 @@ def c01(ctx):
         ctx.add(out, lab, CT.rule_F3a, ctx, prog, lab)
         ctx.add(out, lab, P.rule_C6, ctx, prog, lab)
         ctx.add(out, lab, M.rule_C2_callers, ctx, prog, lab)
+        ctx.add(out, lab, IV.rule_F9, ctx, prog, lab)
+        ctx.add(out, lab, P.rule_C6d, ctx, prog, lab)
+        ctx.add(out, lab, M.rule_C3c, ctx, prog, lab)
     return out
 
 
@@ -482,6 +487,7 @@ def c14(ctx):
                    'work sharing strides by omp_get_num_threads() of the executing team; positive controls for H3/H4 on every run.'),
       not_decided='bit-equality with the sequential build follows for race-free, iteration-independent regions from determinism of each iteration, which is argued, not checked')
 def c16(ctx):
+    from . import intervals as IV, purity as PU
     from . import omp as H, const_rules as CR, globals_engine as G, contracts as CT
     out = []
     cfgs = frontend.openmp_configs()
@@ -494,6 +500,8 @@ def c16(ctx):
         ctx.add(out, lab, H.rule_H3, ctx, prog, lab)
         ctx.add(out, lab, H.rule_H2, ctx, prog, lab)
         ctx.add(out, lab, H.rule_H4, ctx, prog, lab)
+        ctx.add(out, lab, IV.rule_F9, ctx, prog, lab)
+        ctx.add(out, lab, PU.rule_C6d, ctx, prog, lab)
         ctx.add(out, lab, CT.rule_F6, ctx, prog, lab, only_funcs={'_mzd_mul_mp4', '_mzd_addmul_mp4', 'mzd_mul_mp', 'mzd_addmul_mp'})
         ctx.add(out, lab, CT.rule_F7, ctx, prog, lab, only_funcs={'_mzd_mul_mp4', '_mzd_addmul_mp4', 'mzd_mul_mp', 'mzd_addmul_mp'})
         if cfg['mmc']:      # without the block cache there is nothing to guard
@@ -515,9 +523,12 @@ INV_FUNCS = {'mzd_inv_m4ri', 'mzd_invert_naive', 'mzd_trtri_upper', 'mzd_trtri_u
                    'R2 - recursive triangular inversion: the two diagonal blocks tile the diagonal, the off-diagonal block is rows(U00) x cols(U11) '
                    'and is solved with both blocks before either is inverted in place. B8 - in the Four-Russians triangular inversion table j is '
                    'built from the diagonal block at r + j*k into U[j]/T[j] (affine periodic call groups). B1/B2 - the Duff device of the table '
-                   'builder. F6/F7 - dimension and position typing of the calls in mzd_trtri_upper. E1 - every temporary is released once on all paths.'),
+                   'builder. F6/F7 - dimension and position typing of the calls in mzd_trtri_upper. E1 - every temporary is released once on all paths. '
+                   'C1 on the data movers the recipe is built from (concat, submatrix, copy, set_ui). R1 also bounds the table parameter handed to the '
+                   'elimination (0 or 1..10) by interval analysis.'),
       not_decided='A*B = B*A = I, equality of the naive and the Four-Russians result, that the triangular inverse is the inverse (value level)')
 def c05(ctx):
+    from . import masks as M
     from . import inverse as RI, const_rules as CR, families as B, contracts as CT, resources as R
     out = []
     for cfg in _configs(ctx):
@@ -532,6 +543,7 @@ def c05(ctx):
         ctx.add(out, lab, CT.rule_F6, ctx, prog, lab, only_funcs=INV_FUNCS)
         ctx.add(out, lab, CT.rule_F7, ctx, prog, lab, only_funcs=INV_FUNCS)
         ctx.add(out, lab, R.rule_E1, ctx, prog, lab, only_funcs=INV_FUNCS, rule='E1-inv')
+        ctx.add(out, lab, M.rule_C1, ctx, prog, lab, only={'mzd_concat', 'mzd_submatrix', 'mzd_copy', 'mzd_set_ui'} | INV_FUNCS, rule='C1-inv')
     return out
 
 
